@@ -1,8 +1,1130 @@
-//! C11 — monitor not built yet.
+//! C11 — workspace mutations never overlap and are logged in the order they happened.
+//!
+//! Workload: 2–8 parallel sessions (tool / checkpoint envelopes posted to threads, scripted-provider
+//! tool loops with several calls per turn, plain sessions) and 0–4 shell tasks on one engine.
+//! Monitors:
+//!  (1) in-flight accounting at `ws.exec.begin` / `ws.exec.end` (the HARNESS classifies tools), plus a
+//!      seeded hold right after a begin was accounted (up to H ms or until another begin shows up) so
+//!      that a missing exclusion is seen with near certainty;
+//!  (2) black box: shell tools / tasks run `rv mark` which brackets a short sleep with O_APPEND
+//!      BEGIN/END lines in one marks file; brackets of different actors must not interleave;
+//!  (3) offline thread oracle over the truth log: one side-effects frame per mutating tool call, placed
+//!      after the tool's end and before the run's end, listing the changed files, in begin order.
+
+use crate::c06::Heartbeat;
+use crate::fixture::{runtime, wait_for, App, Store};
+use crate::prng::Rng;
+use crate::provider::{
+    ev_completed, ev_created, ev_item_added, ev_item_done, ev_text_delta, function_call_item, sse_done, sse_event,
+    Provider, Recorded, Reply,
+};
 use crate::report::{Cfg, Report};
+use crate::sched::{sched, Sched};
+use crate::truth;
+use ripd::verif_export::{OpenResponsesConfig, ToolChoiceParam};
+use serde_json::{json, Value};
+use std::collections::{BTreeMap, HashMap};
+use std::io::Write;
+use std::sync::{Arc, Condvar, Mutex};
+use std::time::{Duration, Instant};
+
+// ---------------------------------------------------------------------------------------------
+// helper sub-command:  rv mark <file> <id> <sleep_ms>
+
+pub fn mark_helper(args: &[String]) -> i32 {
+    if args.len() < 3 {
+        eprintln!("usage: rv mark <file> <id> <sleep_ms>");
+        return 2;
+    }
+    let file = &args[0];
+    let id = &args[1];
+    let ms: u64 = args[2].parse().unwrap_or(0);
+    let line = |what: &str| -> std::io::Result<()> {
+        let mut f = std::fs::OpenOptions::new().create(true).append(true).open(file)?;
+        // one write(2) of a whole line on an O_APPEND descriptor: atomic, ordered
+        f.write_all(format!("{what} {id} {}\n", now_ns()).as_bytes())
+    };
+    if line("BEGIN").is_err() {
+        return 1;
+    }
+    std::thread::sleep(Duration::from_millis(ms));
+    if line("END").is_err() {
+        return 1;
+    }
+    println!("marked {id}");
+    0
+}
+
+fn now_ns() -> u128 {
+    let mut ts = libc::timespec { tv_sec: 0, tv_nsec: 0 };
+    // system-wide monotonic clock: comparable across processes
+    unsafe { libc::clock_gettime(libc::CLOCK_MONOTONIC, &mut ts) };
+    ts.tv_sec as u128 * 1_000_000_000 + ts.tv_nsec as u128
+}
+
+// ---------------------------------------------------------------------------------------------
+// (1) in-flight monitor
+
+pub fn is_read_only(tool: &str) -> bool {
+    matches!(tool, "read" | "ls" | "grep" | "artifact_fetch")
+}
+
+#[derive(Clone, Debug)]
+pub struct Begin {
+    pub clock: u64,
+    pub actor: String,
+    pub tool: String,
+}
+
+#[derive(Default)]
+struct MonState {
+    clock: u64,
+    /// ctx -> (mutating, begin clock)
+    inflight: HashMap<String, (bool, u64)>,
+    begins: Vec<Begin>,
+    ends: u64,
+    end_without_begin: u64,
+    /// pairs of tools (sorted) seen mutating at the same time, with the two ctx strings
+    mut_overlaps: Vec<(String, String, String, String)>,
+    max_mutating: usize,
+    ro_with_ro: u64,
+    ro_with_mut: u64,
+    holds: u64,
+    holds_cut_short: u64,
+    begin_seen: u64, // bumped at every begin, wakes holders
+    rng: Option<Rng>,
+    hold_num: u64, // hold probability numerator / 8
+    hold_ms: u64,
+    side_effect_points: u64,
+    sfx_holder: bool,
+    sfx_holds: u64,
+    sfx_holds_overtaken: u64,
+}
+
+pub struct Monitor {
+    st: Mutex<MonState>,
+    cv: Condvar,
+}
+
+impl Monitor {
+    fn new() -> Arc<Monitor> {
+        Arc::new(Monitor {
+            st: Mutex::new(MonState::default()),
+            cv: Condvar::new(),
+        })
+    }
+
+    fn arm(&self, seed: u64, hold_num: u64, hold_ms: u64) {
+        let mut g = self.st.lock().unwrap();
+        *g = MonState::default();
+        g.rng = Some(Rng::new(seed));
+        g.hold_num = hold_num;
+        g.hold_ms = hold_ms;
+    }
+
+    /// wake every holder (watchdog path)
+    fn release(&self) {
+        let mut g = self.st.lock().unwrap();
+        g.begin_seen += 1;
+        g.side_effect_points += 1;
+        g.hold_ms = 0;
+        drop(g);
+        self.cv.notify_all();
+    }
+
+    fn on_point(&self, name: &'static str, ctx: &str) {
+        match name {
+            "ws.exec.begin" => {
+                let (actor, tool) = ctx.split_once(' ').unwrap_or((ctx, ""));
+                let mutating = !is_read_only(tool);
+                let mut g = self.st.lock().unwrap();
+                g.clock += 1;
+                let clock = g.clock;
+                g.begin_seen += 1;
+                // who else is in flight?
+                let others: Vec<(String, bool)> = g.inflight.iter().map(|(k, v)| (k.clone(), v.0)).collect();
+                for (octx, omut) in &others {
+                    if mutating && *omut {
+                        let ot = octx.split_once(' ').map(|x| x.1).unwrap_or("").to_string();
+                        let (a, b) = if ot.as_str() <= tool { (ot, tool.to_string()) } else { (tool.to_string(), ot) };
+                        g.mut_overlaps.push((a, b, octx.clone(), ctx.to_string()));
+                    } else if !mutating && !*omut {
+                        g.ro_with_ro += 1;
+                    } else {
+                        g.ro_with_mut += 1;
+                    }
+                }
+                g.inflight.insert(ctx.to_string(), (mutating, clock));
+                let nmut = g.inflight.values().filter(|v| v.0).count();
+                g.max_mutating = g.max_mutating.max(nmut);
+                g.begins.push(Begin { clock, actor: actor.to_string(), tool: tool.to_string() });
+                self.cv.notify_all();
+                // seeded hold: stay "in the tool" until somebody else begins, or H ms
+                let (num, ms) = (g.hold_num, g.hold_ms);
+                let hold = ms > 0 && g.rng.as_mut().map(|r| r.below(8) < num).unwrap_or(false);
+                if hold {
+                    g.holds += 1;
+                    let seen = g.begin_seen;
+                    let deadline = Instant::now() + Duration::from_millis(ms);
+                    loop {
+                        if g.begin_seen != seen {
+                            g.holds_cut_short += 1;
+                            break;
+                        }
+                        let now = Instant::now();
+                        if now >= deadline {
+                            break;
+                        }
+                        let (ng, _) = self.cv.wait_timeout(g, deadline - now).unwrap();
+                        g = ng;
+                    }
+                }
+            }
+            "ws.exec.end" => {
+                let mut g = self.st.lock().unwrap();
+                g.clock += 1;
+                g.ends += 1;
+                if g.inflight.remove(ctx).is_none() {
+                    g.end_without_begin += 1;
+                }
+            }
+            "ws.side_effects.before_append" => {
+                // A run is about to write its side-effects frame. Sometimes keep it here until ANOTHER
+                // run reaches this same point (only possible if the workspace lock is no longer held)
+                // and give that one the time to write its frame first; at most one holder at a time.
+                let mut g = self.st.lock().unwrap();
+                g.side_effect_points += 1;
+                self.cv.notify_all();
+                let (num, ms) = (g.hold_num.max(3), g.hold_ms.clamp(10, 25));
+                let hold = !g.sfx_holder && g.rng.as_mut().map(|r| r.below(8) < num).unwrap_or(false);
+                if hold {
+                    g.sfx_holder = true;
+                    g.sfx_holds += 1;
+                    let seen = g.side_effect_points;
+                    let deadline = Instant::now() + Duration::from_millis(ms);
+                    let mut overtaken = false;
+                    loop {
+                        if g.side_effect_points != seen {
+                            overtaken = true;
+                            break;
+                        }
+                        let now = Instant::now();
+                        if now >= deadline {
+                            break;
+                        }
+                        let (ng, _) = self.cv.wait_timeout(g, deadline - now).unwrap();
+                        g = ng;
+                    }
+                    g.sfx_holder = false;
+                    if overtaken {
+                        g.sfx_holds_overtaken += 1;
+                        drop(g);
+                        std::thread::sleep(Duration::from_millis(3));
+                    }
+                }
+            }
+            _ => {}
+        }
+    }
+}
+
+// ---------------------------------------------------------------------------------------------
+// scripted provider: the plan of a prompt run is looked up by a token in the prompt
+
+#[derive(Clone, Debug)]
+pub struct Call {
+    pub name: String,
+    pub args: Value,
+}
+
+type Plans = Arc<Mutex<HashMap<String, Vec<Vec<Call>>>>>;
+
+/// The LAST token in the request: the compiled context may carry earlier messages of the thread.
+fn find_token(v: &Value) -> Option<String> {
+    let text = v.to_string();
+    let i = text.rfind("tok_")?;
+    let t: String = text[i..].chars().take_while(|c| c.is_ascii_alphanumeric() || *c == '_').collect();
+    Some(t)
+}
+
+fn start_provider(plans: Plans) -> Provider {
+    Provider::start(Arc::new(move |rec: &Recorded| {
+        let body = rec.json().unwrap_or(Value::Null);
+        // follow-ups carry previous_response_id = resp_<token>_<turn>
+        let (token, turn) = match body.get("previous_response_id").and_then(|x| x.as_str()) {
+            Some(prev) if prev.starts_with("resp_") => {
+                let rest = &prev[5..];
+                match rest.rsplit_once('_') {
+                    Some((tok, n)) => (tok.to_string(), n.parse::<usize>().unwrap_or(0)),
+                    None => (rest.to_string(), 0),
+                }
+            }
+            _ => (find_token(&body).unwrap_or_else(|| "tok_none".into()), 0),
+        };
+        let calls: Vec<Call> = plans.lock().unwrap().get(&token).and_then(|p| p.get(turn).cloned()).unwrap_or_default();
+        let rid = format!("resp_{token}_{}", turn + 1);
+        let mut s = String::new();
+        let mut seq = 0u64;
+        s.push_str(&sse_event(&ev_created(seq, &rid)));
+        seq += 1;
+        let mut output = Vec::new();
+        if calls.is_empty() {
+            s.push_str(&sse_event(&ev_text_delta(seq, "msg_1", "done")));
+            seq += 1;
+        }
+        for (i, c) in calls.iter().enumerate() {
+            let item_id = format!("fc_{token}_{turn}_{i}");
+            let call_id = format!("call_{token}_{turn}_{i}");
+            let args = c.args.to_string();
+            s.push_str(&sse_event(&ev_item_added(seq, i as u64, function_call_item(Some(&item_id), &call_id, &c.name, "", "in_progress"))));
+            seq += 1;
+            let done = function_call_item(Some(&item_id), &call_id, &c.name, &args, "completed");
+            s.push_str(&sse_event(&ev_item_done(seq, i as u64, done.clone())));
+            seq += 1;
+            output.push(done);
+        }
+        s.push_str(&sse_event(&ev_completed(seq, &rid, Value::Array(output))));
+        s.push_str(&sse_done());
+        Reply::sse(s)
+    }))
+}
+
+// ---------------------------------------------------------------------------------------------
+// workload vocabulary
+
+#[derive(Clone, Debug)]
+pub enum Op {
+    Write { path: String, content: String },
+    Patch { files: Vec<String> },
+    Bash { mark: String, sleep_ms: u64 },
+    Read { path: String },
+    Ls,
+    Grep,
+    Fetch,
+}
+
+struct Env {
+    exe: String,
+    marks: String,
+}
+
+impl Op {
+    fn name(&self) -> &'static str {
+        match self {
+            Op::Write { .. } => "write",
+            Op::Patch { .. } => "apply_patch",
+            Op::Bash { .. } => "bash",
+            Op::Read { .. } => "read",
+            Op::Ls => "ls",
+            Op::Grep => "grep",
+            Op::Fetch => "artifact_fetch",
+        }
+    }
+    fn args(&self, env: &Env) -> Value {
+        match self {
+            Op::Write { path, content } => json!({"path": path, "content": content}),
+            Op::Patch { files } => {
+                let mut p = String::from("*** Begin Patch\n");
+                for f in files {
+                    p.push_str(&format!("*** Add File: {f}\n+patched {f}\n"));
+                }
+                p.push_str("*** End Patch");
+                json!({ "patch": p })
+            }
+            Op::Bash { mark, sleep_ms } => {
+                json!({"command": format!("'{}' mark '{}' {} {}", env.exe, env.marks, mark, sleep_ms)})
+            }
+            Op::Read { path } => json!({ "path": path }),
+            Op::Ls => json!({"path": ".", "recursive": true}),
+            Op::Grep => json!({"pattern": "seed", "path": "."}),
+            Op::Fetch => json!({"id": "0".repeat(64)}),
+        }
+    }
+    fn envelope(&self, env: &Env) -> String {
+        json!({"tool": self.name(), "args": self.args(env)}).to_string()
+    }
+}
+
+fn gen_op(rng: &mut Rng, tag: &str, n: &mut u32, read_bias: u64) -> Op {
+    *n += 1;
+    let i = *n;
+    if rng.below(10) < read_bias {
+        match rng.below(4) {
+            0 => Op::Read { path: format!("seed{}.txt", rng.below(3)) },
+            1 => Op::Ls,
+            2 => Op::Grep,
+            _ => Op::Fetch,
+        }
+    } else {
+        match rng.below(3) {
+            0 => Op::Write { path: format!("w_{tag}_{i}.txt"), content: format!("content {tag} {i}") },
+            1 => {
+                let mut files = vec![format!("p_{tag}_{i}_a.txt")];
+                if rng.bool() {
+                    files.push(format!("p_{tag}_{i}_b.txt"));
+                }
+                Op::Patch { files }
+            }
+            _ => Op::Bash { mark: format!("sb-{tag}-{i}"), sleep_ms: 3 + rng.below(15) },
+        }
+    }
+}
+
+#[derive(Clone, Debug)]
+enum Actor {
+    Envelope { thread: usize, op: Op },
+    Checkpoint { thread: usize },
+    Prompt { thread: usize, token: String, turns: Vec<Vec<Op>> },
+    Plain { op: Op },
+    Task { mark: String, sleep_ms: u64 },
+}
+
+impl Actor {
+    fn shape(&self) -> String {
+        match self {
+            Actor::Envelope { op, .. } => format!("env:{}", op.name()),
+            Actor::Checkpoint { .. } => "checkpoint:create+rewind".into(),
+            Actor::Prompt { turns, .. } => format!(
+                "prompt:[{}]",
+                turns.iter().map(|t| t.iter().map(|o| o.name()).collect::<Vec<_>>().join(",")).collect::<Vec<_>>().join("|")
+            ),
+            Actor::Plain { op } => format!("plain:{}", op.name()),
+            Actor::Task { .. } => "task".into(),
+        }
+    }
+}
+
+/// What an actor did: the runs it started (session id, thread id if attached, the ops in order).
+#[derive(Clone, Debug, Default)]
+struct RunRec {
+    session_id: String,
+    thread: Option<String>,
+    ops: Vec<Op>,
+    checkpoint: bool,
+}
+
+#[derive(Default)]
+struct ActorOut {
+    runs: Vec<RunRec>,
+    task_ids: Vec<String>,
+    errors: Vec<String>,
+}
+
+async fn wait_file(p: std::path::PathBuf, secs: u64) -> bool {
+    wait_for(Duration::from_secs(secs), || if p.exists() { Some(()) } else { None }).await.is_some()
+}
+
+async fn post_thread(app: &App, thread: &str, content: &str) -> Result<String, String> {
+    let (st, v) = app.json("POST", &format!("/threads/{thread}/messages"), Some(&json!({"content": content}))).await;
+    if st != 202 {
+        return Err(format!("POST /threads/../messages -> {st}"));
+    }
+    Ok(v["session_id"].as_str().unwrap_or("").to_string())
+}
+
+async fn run_actor(app: App, store_data: std::path::PathBuf, ws: std::path::PathBuf, env: Arc<Env>, threads: Vec<String>, actor: Actor, delay_us: u64) -> ActorOut {
+    let mut out = ActorOut::default();
+    tokio::time::sleep(Duration::from_micros(delay_us)).await;
+    match actor {
+        Actor::Envelope { thread, op } => match post_thread(&app, &threads[thread], &op.envelope(&env)).await {
+            Ok(sid) => out.runs.push(RunRec { session_id: sid, thread: Some(threads[thread].clone()), ops: vec![op], checkpoint: false }),
+            Err(e) => out.errors.push(e),
+        },
+        Actor::Prompt { thread, token, turns } => {
+            match post_thread(&app, &threads[thread], &format!("please do the planned work {token}")).await {
+                Ok(sid) => out.runs.push(RunRec {
+                    session_id: sid,
+                    thread: Some(threads[thread].clone()),
+                    ops: turns.into_iter().flatten().collect(),
+                    checkpoint: false,
+                }),
+                Err(e) => out.errors.push(e),
+            }
+        }
+        Actor::Plain { op } => {
+            let (st, v) = app.json("POST", "/sessions", None).await;
+            let sid = v["session_id"].as_str().unwrap_or("").to_string();
+            if st != 201 {
+                out.errors.push(format!("POST /sessions -> {st}"));
+                return out;
+            }
+            let (st, _) = app.json("POST", &format!("/sessions/{sid}/input"), Some(&json!({"input": op.envelope(&env)}))).await;
+            if st != 202 {
+                out.errors.push(format!("POST input -> {st}"));
+                return out;
+            }
+            out.runs.push(RunRec { session_id: sid, thread: None, ops: vec![op], checkpoint: false });
+        }
+        Actor::Task { mark, sleep_ms } => {
+            let cmd = format!("'{}' mark '{}' {} {}", env.exe, env.marks, mark, sleep_ms);
+            let (st, v) = app.json("POST", "/tasks", Some(&json!({"tool":"bash","args":{"command":cmd}}))).await;
+            if st == 201 {
+                out.task_ids.push(v["task_id"].as_str().unwrap_or("").to_string());
+            } else {
+                out.errors.push(format!("POST /tasks -> {st}"));
+            }
+        }
+        Actor::Checkpoint { thread } => {
+            let file = ws.join("seed0.txt").to_string_lossy().to_string();
+            let create = json!({"checkpoint":{"action":"create","label":"c11","files":[file]}}).to_string();
+            let sid = match post_thread(&app, &threads[thread], &create).await {
+                Ok(s) => s,
+                Err(e) => {
+                    out.errors.push(e);
+                    return out;
+                }
+            };
+            out.runs.push(RunRec { session_id: sid.clone(), thread: Some(threads[thread].clone()), ops: vec![], checkpoint: true });
+            if !wait_file(store_data.join("snapshots").join(format!("{sid}.json")), 20).await {
+                out.errors.push("checkpoint create run did not end".into());
+                return out;
+            }
+            // the checkpoint id is in the run's checkpoint_created frame
+            let bytes = std::fs::read(store_data.join("events.jsonl")).unwrap_or_default();
+            let text = String::from_utf8_lossy(&bytes);
+            let id = text
+                .lines()
+                .filter(|l| l.contains(&sid) && l.contains("\"type\":\"checkpoint_created\""))
+                .find_map(|l| serde_json::from_str::<Value>(l).ok())
+                .and_then(|v| v.get("checkpoint_id").and_then(|x| x.as_str()).map(|x| x.to_string()));
+            let Some(id) = id else {
+                out.errors.push("checkpoint create produced no checkpoint_created frame".into());
+                return out;
+            };
+            let rewind = json!({"checkpoint":{"action":"rewind","id": id}}).to_string();
+            match post_thread(&app, &threads[thread], &rewind).await {
+                Ok(sid2) => out.runs.push(RunRec { session_id: sid2, thread: Some(threads[thread].clone()), ops: vec![], checkpoint: true }),
+                Err(e) => out.errors.push(e),
+            }
+        }
+    }
+    out
+}
+
+// ---------------------------------------------------------------------------------------------
+// entry point
+
+struct World {
+    store: Store,
+    app: App,
+    used: u32,
+}
+
+struct Ctx<'a> {
+    cfg: &'a Cfg,
+    s: Arc<Sched>,
+    rt: tokio::runtime::Runtime,
+    mon: Arc<Monitor>,
+    plans: Plans,
+    provider: Provider,
+    world: Option<World>,
+    exe: String,
+    ro_overlap_total: u64,
+    ro_mut_overlap_total: u64,
+}
 
 pub fn run(cfg: &Cfg) -> i32 {
-    let mut r = Report::new("C11", "exploration", "not built");
-    r.fatal_inconclusive("monitor not built yet");
+    let mut r = Report::new(
+        "C11",
+        "exploration",
+        "seeded scenarios on one engine: 2–8 parallel sessions (tool envelopes write/apply_patch/bash/read/ls/grep/\
+         artifact_fetch and checkpoint create+rewind envelopes posted to 1–2 threads, scripted-provider tool loops with \
+         1–4 calls per turn, plain sessions) and 0–4 shell tasks; noise at ws.exec.begin/end and \
+         ws.side_effects.before_append plus a seeded hold right after a begin is accounted (until another begin or H ms); \
+         first two cases are directed (all read-only with holds; all mutating with holds). A case is non-trivial when ≥2 \
+         mutating executions of different actors were in the case; distinct = hash of the sequence of (actor class, tool) \
+         begins in observed order",
+    );
+    r.assume("hook points do not change behaviour beyond timing");
+    r.assume("tool classification is the harness's own: read, ls, grep, artifact_fetch are read-only; everything else (incl. checkpoint envelopes and tasks) mutates");
+    r.assume("affected_paths is judged for successful write / apply_patch calls only; for bash the value is recorded, not judged (rip cannot know what a shell command touched)");
+    r.max_samples = 5;
+    let s = sched();
+    let rt = runtime(16);
+    let _hb = Heartbeat::start(rt.handle().clone());
+    let plans: Plans = Arc::new(Mutex::new(HashMap::new()));
+    let provider = start_provider(plans.clone());
+    let exe = std::env::current_exe().map(|p| p.to_string_lossy().to_string()).unwrap_or_else(|_| "rv".into());
+    let mut cx = Ctx {
+        cfg,
+        s,
+        rt,
+        mon: Monitor::new(),
+        plans,
+        provider,
+        world: None,
+        exe,
+        ro_overlap_total: 0,
+        ro_mut_overlap_total: 0,
+    };
+
+    if let Some(path) = &cfg.replay {
+        let doc: Value = std::fs::read(path).ok().and_then(|b| serde_json::from_slice(&b).ok()).unwrap_or(Value::Null);
+        let idx = doc["witness"]["case"].as_u64().unwrap_or(0);
+        let seed = doc["seed"].as_u64().unwrap_or(cfg.seed);
+        r.note("replay_note", json!("schedule is OS + seeded noise: the same generated case is re-run 5 times"));
+        for _ in 0..5 {
+            let mut rng = Rng::derive(seed, idx);
+            scenario(&mut cx, &mut r, idx, &mut rng);
+        }
+    } else {
+        let max_cases = cfg.tier.pick(400u64, 1_000_000u64);
+        let mut idx = 0u64;
+        while idx < max_cases && r.elapsed() < cfg.budget_s * 0.92 {
+            let i = idx;
+            idx += 1;
+            if !cfg.mine(i) {
+                continue;
+            }
+            let mut rng = cfg.case_rng(i);
+            scenario(&mut cx, &mut r, i, &mut rng);
+        }
+    }
+    cx.s.set_custom(None);
+    cx.s.reset();
+    r.count("read_only_overlaps_observed", cx.ro_overlap_total);
+    r.count("read_only_with_mutating_overlaps_observed", cx.ro_mut_overlap_total);
+    if cx.ro_overlap_total + cx.ro_mut_overlap_total == 0 && r.evaluations > 0 {
+        r.note(
+            "read_only_overlap",
+            json!("NOT observed in this run/shard: nothing can be said here about 'read-only tools may overlap freely'"),
+        );
+        if cfg.shard.1 == 1 {
+            r.inconclusive("read-only overlap was never observed");
+        }
+    }
+    cx.world = None;
+    let Ctx { rt, provider, .. } = cx;
+    drop(provider);
+    drop(rt);
     r.finish(cfg)
+}
+
+fn open_world(cx: &mut Ctx) -> Result<(), String> {
+    let fresh = match &cx.world {
+        Some(w) => w.used >= 25,
+        None => true,
+    };
+    if fresh {
+        cx.world = None;
+        let store = Store::new("c11");
+        for i in 0..3 {
+            let mut body = String::new();
+            for l in 0..400 {
+                body.push_str(&format!("seed line {l} of file {i}\n"));
+            }
+            std::fs::write(store.ws.join(format!("seed{i}.txt")), body).map_err(|e| e.to_string())?;
+        }
+        let cfg = OpenResponsesConfig {
+            endpoint: cx.provider.endpoint(),
+            api_key: None,
+            model: Some("m".into()),
+            headers: vec![],
+            tool_choice: ToolChoiceParam::auto(),
+            followup_user_message: None,
+            stateless_history: false,
+            parallel_tool_calls: false,
+        };
+        let _g = cx.rt.enter();
+        let app = App::open(&store, Some(cfg))?;
+        cx.world = Some(World { store, app, used: 0 });
+    }
+    if let Some(w) = cx.world.as_mut() {
+        w.used += 1;
+    }
+    Ok(())
+}
+
+fn gen_actors(rng: &mut Rng, idx: u64, n_threads: usize, directed: Option<&str>) -> Vec<Actor> {
+    let mut n = 0u32;
+    let mut out = Vec::new();
+    match directed {
+        Some("read_only") => {
+            for a in 0..4 {
+                let op = gen_op(rng, &format!("c{idx}a{a}"), &mut n, 10);
+                out.push(Actor::Envelope { thread: 0, op });
+            }
+            out.push(Actor::Plain { op: Op::Grep });
+            return out;
+        }
+        Some("mutating") => {
+            for a in 0..3 {
+                let op = gen_op(rng, &format!("c{idx}a{a}"), &mut n, 0);
+                out.push(Actor::Envelope { thread: 0, op });
+            }
+            out.push(Actor::Task { mark: format!("tk-c{idx}-0"), sleep_ms: 10 });
+            out.push(Actor::Checkpoint { thread: 0 });
+            out.push(Actor::Plain { op: Op::Write { path: format!("plain_c{idx}.txt"), content: "x".into() } });
+            return out;
+        }
+        _ => {}
+    }
+    let n_sessions = 2 + rng.usize(7);
+    let n_tasks = rng.usize(5);
+    let read_bias = [1u64, 3, 5, 8][rng.usize(4)];
+    for a in 0..n_sessions {
+        let tag = format!("c{idx}a{a}");
+        let thread = rng.usize(n_threads);
+        let actor = match rng.below(10) {
+            0..=4 => Actor::Envelope { thread, op: gen_op(rng, &tag, &mut n, read_bias) },
+            5..=7 => {
+                let turns = 1 + rng.usize(2);
+                let mut t = Vec::new();
+                for _ in 0..turns {
+                    let calls = 1 + rng.usize(4);
+                    t.push((0..calls).map(|_| gen_op(rng, &tag, &mut n, read_bias)).collect());
+                }
+                Actor::Prompt { thread, token: format!("tok_{tag}"), turns: t }
+            }
+            8 => Actor::Checkpoint { thread },
+            _ => Actor::Plain { op: gen_op(rng, &tag, &mut n, read_bias) },
+        };
+        out.push(actor);
+    }
+    for t in 0..n_tasks {
+        out.push(Actor::Task { mark: format!("tk-c{idx}-{t}"), sleep_ms: 3 + rng.below(20) });
+    }
+    out
+}
+
+fn scenario(cx: &mut Ctx, r: &mut Report, idx: u64, rng: &mut Rng) {
+    if let Err(e) = open_world(cx) {
+        r.inconclusive(&format!("case {idx}: cannot open an engine: {e}"));
+        return;
+    }
+    let directed = match idx {
+        0 => Some("read_only"),
+        1 => Some("mutating"),
+        _ => None,
+    };
+    let n_threads = 1 + rng.usize(2);
+    let actors = gen_actors(rng, idx, n_threads, directed);
+    let (hold_num, hold_ms) = match directed {
+        Some("read_only") => (8, 200),
+        Some(_) => (8, 60),
+        None => ([0u64, 2, 4, 8][rng.usize(4)], [5u64, 15, 40][rng.usize(3)]),
+    };
+    let noise_us = [0u64, 300, 1500, 4000][rng.usize(4)];
+    let s = cx.s.clone();
+    s.reset();
+    cx.mon.arm(rng.next_u64(), hold_num, hold_ms);
+    let mon = cx.mon.clone();
+    s.set_custom(Some(Arc::new(move |name, ctx| mon.on_point(name, ctx))));
+    s.set_noise(
+        rng.next_u64(),
+        &[("ws.exec.begin", noise_us / 2), ("ws.exec.end", noise_us), ("ws.side_effects.before_append", noise_us)],
+    );
+    // plans of the prompt runs
+    {
+        let mut p = cx.plans.lock().unwrap();
+        p.clear();
+    }
+    let w = cx.world.as_ref().unwrap();
+    let marks = w.store.ws.join(format!("marks-{idx}.txt"));
+    let _ = std::fs::remove_file(&marks);
+    let env = Arc::new(Env { exe: cx.exe.clone(), marks: marks.to_string_lossy().to_string() });
+    {
+        let mut p = cx.plans.lock().unwrap();
+        for a in &actors {
+            if let Actor::Prompt { token, turns, .. } = a {
+                let t: Vec<Vec<Call>> = turns
+                    .iter()
+                    .map(|calls| calls.iter().map(|o| Call { name: o.name().to_string(), args: o.args(&env) }).collect())
+                    .collect();
+                p.insert(token.clone(), t);
+            }
+        }
+    }
+    let delays: Vec<u64> = actors.iter().map(|_| if rng.chance(1, 3) { 0 } else { rng.below(20_000) }).collect();
+    let log_start = w.store.log_bytes().len();
+    let app = w.app.clone();
+    let data = w.store.data.clone();
+    let wsdir = w.store.ws.clone();
+    let actors2 = actors.clone();
+    let (outs, quiet, threads) = cx.rt.block_on(async {
+        let st = app.store();
+        let mut threads = Vec::new();
+        let c0 = st.ensure_default().unwrap_or_default();
+        threads.push(c0.clone());
+        if n_threads > 1 {
+            match st.branch(&c0, Some(format!("c11-{idx}")), None, None, "rv".into(), "c11".into()) {
+                Ok((child, _, _)) => threads.push(child),
+                Err(_) => threads.push(c0.clone()),
+            }
+        }
+        let mut joins = Vec::new();
+        for (a, d) in actors2.into_iter().zip(delays.into_iter()) {
+            joins.push(tokio::spawn(run_actor(app.clone(), data.clone(), wsdir.clone(), env.clone(), threads.clone(), a, d)));
+        }
+        let mut outs = Vec::new();
+        let mut stuck = false;
+        for j in joins {
+            match tokio::time::timeout(Duration::from_secs(25), j).await {
+                Ok(Ok(o)) => outs.push(o),
+                _ => {
+                    stuck = true;
+                    outs.push(ActorOut { errors: vec!["actor did not return".into()], ..Default::default() })
+                }
+            }
+        }
+        if stuck {
+            return (outs, false, threads);
+        }
+        // quiescence: every run's snapshot written and its run_ended on the thread, every task snapshot written
+        let mut files = Vec::new();
+        let mut attached = Vec::new();
+        for o in &outs {
+            for run in &o.runs {
+                files.push(data.join("snapshots").join(format!("{}.json", run.session_id)));
+                if run.thread.is_some() {
+                    attached.push(run.session_id.clone());
+                }
+            }
+            for t in &o.task_ids {
+                files.push(data.join("task_snapshots").join(format!("{t}.json")));
+            }
+        }
+        let mut quiet = wait_for(Duration::from_secs(20), || if files.iter().all(|p| p.exists()) { Some(()) } else { None })
+            .await
+            .is_some();
+        let lp = data.join("events.jsonl");
+        quiet &= wait_for(Duration::from_secs(10), || {
+            let b = std::fs::read(&lp).unwrap_or_default();
+            let t = String::from_utf8_lossy(&b[log_start.min(b.len())..]).to_string();
+            let ok = attached
+                .iter()
+                .all(|sid| t.lines().any(|l| l.contains("\"type\":\"continuity_run_ended\"") && l.contains(sid.as_str())));
+            if ok {
+                Some(())
+            } else {
+                None
+            }
+        })
+        .await
+        .is_some();
+        (outs, quiet, threads)
+    });
+    s.set_custom(None);
+    s.reset();
+    if !quiet {
+        let errors: Vec<String> = outs.iter().flat_map(|o| o.errors.clone()).collect();
+        r.inconclusive(&format!("case {idx}: runs/tasks did not quiesce within the watchdog {:?}", &errors[..errors.len().min(3)]));
+        cx.mon.release();
+        cx.world = None;
+        return;
+    }
+    let errors: Vec<String> = outs.iter().flat_map(|o| o.errors.clone()).collect();
+    if !errors.is_empty() {
+        r.inconclusive(&format!("case {idx}: actor errors: {:?}", &errors[..errors.len().min(3)]));
+    }
+    r.eval();
+    let shape: Vec<String> = actors.iter().map(|a| a.shape()).collect();
+    let witness = |detail: Value| {
+        json!({"case": idx, "actors": shape, "hold": [hold_num, hold_ms], "noise_us": noise_us, "threads": n_threads, "detail": detail})
+    };
+    judge(cx, r, idx, &outs, &threads, log_start, &marks, &witness);
+    let _ = std::fs::remove_file(&marks);
+    if r.samples.len() < 4 {
+        r.sample(witness(json!(null)));
+    }
+}
+
+// ---------------------------------------------------------------------------------------------
+// oracles
+
+#[allow(clippy::too_many_arguments)]
+fn judge(
+    cx: &mut Ctx,
+    r: &mut Report,
+    idx: u64,
+    outs: &[ActorOut],
+    threads: &[String],
+    log_start: usize,
+    marks: &std::path::Path,
+    witness: &dyn Fn(Value) -> Value,
+) {
+    // ---- (1) in-flight monitor
+    let (begins, overlaps, max_mut, ro_ro, ro_mut, ends, ewb, left, holds, cut, sfx_points, sfx_holds, sfx_over) = {
+        let g = cx.mon.st.lock().unwrap();
+        (
+            g.begins.clone(),
+            g.mut_overlaps.clone(),
+            g.max_mutating,
+            g.ro_with_ro,
+            g.ro_with_mut,
+            g.ends,
+            g.end_without_begin,
+            g.inflight.len(),
+            g.holds,
+            g.holds_cut_short,
+            g.side_effect_points,
+            g.sfx_holds,
+            g.sfx_holds_overtaken,
+        )
+    };
+    r.count("holds_before_side_effects_append", sfx_holds);
+    r.count("holds_before_side_effects_append_overtaken_by_another_run", sfx_over);
+    cx.ro_overlap_total += ro_ro;
+    cx.ro_mut_overlap_total += ro_mut;
+    r.count("ws_exec_begin_events", begins.len() as u64);
+    r.count("ws_exec_end_events", ends);
+    r.count("mutating_begins", begins.iter().filter(|b| !is_read_only(&b.tool)).count() as u64);
+    r.count("read_only_begins", begins.iter().filter(|b| is_read_only(&b.tool)).count() as u64);
+    r.count("holds_after_begin", holds);
+    r.count("holds_cut_short_by_another_begin", cut);
+    r.count("side_effects_before_append_points", sfx_points);
+    r.count("cases_with_read_only_overlap", (ro_ro + ro_mut > 0) as u64);
+    let prev = r.extra.get("max_mutating_in_flight_in_this_shard").and_then(|x| x.as_u64()).unwrap_or(0);
+    r.note("max_mutating_in_flight_in_this_shard", json!(prev.max(max_mut as u64)));
+    for (a, b, ca, cb) in &overlaps {
+        r.violation(
+            &format!("C11/mutations_overlap/hook/{a}+{b}"),
+            &format!("two workspace-mutating executions were in flight at the same time: '{a}' and '{b}' (ws.exec.begin of the second before ws.exec.end of the first)"),
+            witness(json!({"first": ca, "second": cb, "begins": begins.iter().map(|b| format!("{}:{} {}", b.clock, &b.actor[..b.actor.len().min(8)], b.tool)).collect::<Vec<_>>()})),
+        );
+    }
+    if ewb > 0 || left > 0 {
+        r.inconclusive(&format!("case {idx}: hook accounting unbalanced ({ewb} ends without begin, {left} begins without end)"));
+    }
+    let mut_actors: std::collections::BTreeSet<&str> =
+        begins.iter().filter(|b| !is_read_only(&b.tool)).map(|b| b.actor.as_str()).collect();
+    if mut_actors.len() >= 2 {
+        let seq: Vec<String> = begins.iter().map(|b| b.tool.clone()).collect();
+        r.distinct_str(&seq.join(","));
+    }
+
+    // ---- (2) marks file
+    let text = std::fs::read_to_string(marks).unwrap_or_default();
+    let mut open: Vec<String> = Vec::new();
+    let mut brackets = 0u64;
+    for line in text.lines() {
+        let mut it = line.split(' ');
+        let (what, id) = (it.next().unwrap_or(""), it.next().unwrap_or("").to_string());
+        match what {
+            "BEGIN" => {
+                if let Some(other) = open.last() {
+                    let cls = |s: &str| if s.starts_with("tk-") { "task" } else { "session_bash" };
+                    let (a, b) = (cls(other), cls(&id));
+                    let (a, b) = if a <= b { (a, b) } else { (b, a) };
+                    r.violation(
+                        &format!("C11/mutations_overlap/marks/{a}+{b}"),
+                        &format!("shell commands of two actors ran at the same time in the workspace: {id} began before {other} ended (O_APPEND marks file)"),
+                        witness(json!({"marks": text.lines().take(40).collect::<Vec<_>>() })),
+                    );
+                }
+                open.push(id);
+                brackets += 1;
+            }
+            "END" => open.retain(|x| *x != id),
+            _ => {}
+        }
+    }
+    r.count("mark_brackets", brackets);
+
+    // ---- (3) thread oracle over the log written by this case
+    let bytes = cx.world.as_ref().map(|w| w.store.log_bytes()).unwrap_or_default();
+    let frames = match truth::parse_log(&bytes[log_start.min(bytes.len())..]) {
+        Ok(f) => f,
+        Err(e) => {
+            r.inconclusive(&format!("case {idx}: log not parseable: {}", e.detail));
+            return;
+        }
+    };
+    struct Started {
+        line: usize,
+        tool_id: String,
+        name: String,
+    }
+    let mut started: HashMap<String, Vec<Started>> = HashMap::new(); // session -> tool_started in seq order
+    let mut tool_end: HashMap<String, (usize, String, Option<i64>)> = HashMap::new(); // tool_id -> (line, type, exit)
+    struct Sfx {
+        line: usize,
+        run: String,
+        tool_id: String,
+        tool_name: String,
+        paths: Option<Vec<String>>,
+        thread: String,
+    }
+    let mut sfx: Vec<Sfx> = Vec::new();
+    let mut run_ended: HashMap<String, usize> = HashMap::new();
+    for f in &frames {
+        match f.ty() {
+            "tool_started" => started.entry(f.stream_id().to_string()).or_default().push(Started {
+                line: f.line_no,
+                tool_id: f.s("tool_id").to_string(),
+                name: f.s("name").to_string(),
+            }),
+            "tool_ended" | "tool_failed" => {
+                tool_end.insert(f.s("tool_id").to_string(), (f.line_no, f.ty().to_string(), f.v.get("exit_code").and_then(|x| x.as_i64())));
+            }
+            "continuity_tool_side_effects" => sfx.push(Sfx {
+                line: f.line_no,
+                run: f.s("run_session_id").to_string(),
+                tool_id: f.s("tool_id").to_string(),
+                tool_name: f.s("tool_name").to_string(),
+                paths: f.v.get("affected_paths").and_then(|x| x.as_array()).map(|a| {
+                    a.iter().filter_map(|p| p.as_str()).map(|p| p.trim_start_matches("./").to_string()).collect()
+                }),
+                thread: f.stream_id().to_string(),
+            }),
+            "continuity_run_ended" => {
+                run_ended.insert(f.s("run_session_id").to_string(), f.line_no);
+            }
+            _ => {}
+        }
+    }
+    r.count("side_effects_frames", sfx.len() as u64);
+    let mut known_tool_ids: HashMap<String, (String, bool)> = HashMap::new(); // tool_id -> (session, attached)
+    // tool_id -> clock of its ws.exec.begin (mutating tool calls only)
+    let mut begin_clock: HashMap<String, u64> = HashMap::new();
+    let mut unmapped = false;
+    for o in outs {
+        for run in &o.runs {
+            let empty = Vec::new();
+            let st = started.get(&run.session_id).unwrap_or(&empty);
+            for t in st {
+                known_tool_ids.insert(t.tool_id.clone(), (run.session_id.clone(), run.thread.is_some()));
+            }
+            // map begins of this actor to its tool_started frames (same order: one session runs its tools sequentially)
+            let b: Vec<&Begin> = begins.iter().filter(|b| b.actor == run.session_id && b.tool != "checkpoint").collect();
+            if b.len() == st.len() && b.iter().zip(st.iter()).all(|(b, t)| b.tool == t.name) {
+                for (b, t) in b.iter().zip(st.iter()) {
+                    begin_clock.insert(t.tool_id.clone(), b.clock);
+                }
+            } else {
+                unmapped = true;
+            }
+            if run.checkpoint {
+                r.count("checkpoint_envelope_runs", 1);
+                continue;
+            }
+            let names: Vec<&str> = st.iter().map(|t| t.name.as_str()).collect();
+            let expected: Vec<&str> = run.ops.iter().map(|o| o.name()).collect();
+            let as_planned = names == expected;
+            if !as_planned {
+                r.count("runs_not_as_planned", 1);
+                r.inconclusive(&format!("case {idx}: run executed tools {names:?}, planned {expected:?} (provider loop did not follow the script?)"));
+            }
+            let Some(thread) = &run.thread else {
+                r.count("plain_session_tool_calls", st.len() as u64);
+                continue;
+            };
+            for (i, t) in st.iter().enumerate() {
+                let mine: Vec<&Sfx> = sfx.iter().filter(|x| x.tool_id == t.tool_id).collect();
+                if is_read_only(&t.name) {
+                    r.count("read_only_tool_calls_in_attached_runs", 1);
+                    r.count("side_effects_frames_for_read_only_calls", mine.len() as u64);
+                    continue;
+                }
+                r.count("mutating_tool_calls_in_attached_runs", 1);
+                let w = |d: Value| witness(json!({"run": run.session_id, "tool": t.name, "tool_id": t.tool_id, "detail": d}));
+                if mine.len() != 1 {
+                    r.violation(
+                        &format!("C11/side_effects_frame_count/{}/{}", t.name, if mine.is_empty() { "missing" } else { "duplicated" }),
+                        &format!("mutating tool call '{}' of a thread-attached run has {} continuity_tool_side_effects frames (expected exactly 1)", t.name, mine.len()),
+                        w(json!(mine.len())),
+                    );
+                    continue;
+                }
+                let x = mine[0];
+                if x.run != run.session_id || x.thread != *thread || x.tool_name != t.name {
+                    r.violation(
+                        &format!("C11/side_effects_frame_provenance/{}", t.name),
+                        "side-effects frame names another run / thread / tool than the call it belongs to",
+                        w(json!({"frame_run": x.run, "frame_thread": x.thread, "frame_tool": x.tool_name})),
+                    );
+                }
+                match tool_end.get(&t.tool_id) {
+                    Some((end_line, _, _)) if x.line > *end_line => {}
+                    Some(_) => r.violation(
+                        &format!("C11/side_effects_before_tool_end/{}", t.name),
+                        "side-effects frame was logged before the tool's tool_ended/tool_failed frame",
+                        w(json!(null)),
+                    ),
+                    None => r.inconclusive(&format!("case {idx}: tool {} has no tool_ended/tool_failed frame", t.name)),
+                }
+                match run_ended.get(&run.session_id) {
+                    Some(end) if x.line < *end => {}
+                    Some(_) => r.violation(
+                        &format!("C11/side_effects_after_run_ended/{}", t.name),
+                        "side-effects frame was logged after the run's continuity_run_ended",
+                        w(json!(null)),
+                    ),
+                    None => {}
+                }
+                let _ = t.line;
+                // files changed
+                let ok = matches!(tool_end.get(&t.tool_id), Some((_, ty, Some(0))) if ty == "tool_ended");
+                if as_planned && ok {
+                    let want: Option<Vec<String>> = match &run.ops[i] {
+                        Op::Write { path, .. } => Some(vec![path.clone()]),
+                        Op::Patch { files } => {
+                            let mut f = files.clone();
+                            f.sort();
+                            Some(f)
+                        }
+                        _ => None,
+                    };
+                    if let Some(want) = want {
+                        let mut got = x.paths.clone().unwrap_or_default();
+                        got.sort();
+                        r.count("affected_paths_checked", 1);
+                        if got != want {
+                            r.violation(
+                                &format!("C11/affected_paths/{}", t.name),
+                                &format!("side-effects frame lists {:?}, the call changed {:?}", x.paths, want),
+                                w(json!({"got": x.paths, "want": want})),
+                            );
+                        }
+                    } else if t.name == "bash" {
+                        r.count(if x.paths.is_none() { "bash_affected_paths_null" } else { "bash_affected_paths_listed" }, 1);
+                    }
+                }
+            }
+        }
+    }
+    // frames that belong to no tool call of this case's runs
+    for x in &sfx {
+        match known_tool_ids.get(&x.tool_id) {
+            Some((_, true)) => {}
+            Some((_, false)) => r.violation(
+                "C11/side_effects_frame_for_unattached_run",
+                "a run that is not attached to a thread produced a side-effects frame on a thread",
+                witness(json!({"tool": x.tool_name})),
+            ),
+            None => r.violation(
+                &format!("C11/side_effects_frame_orphan/{}", x.tool_name),
+                "side-effects frame whose tool_id matches no tool_started frame of any run",
+                witness(json!({"tool": x.tool_name, "run": x.run})),
+            ),
+        }
+    }
+    // order of the frames on each thread = order of the mutations (begin clocks)
+    for th in threads.iter().collect::<std::collections::BTreeSet<_>>() {
+        let mut prev: Option<(u64, &Sfx)> = None;
+        for x in sfx.iter().filter(|x| &x.thread == th) {
+            let Some(c) = begin_clock.get(&x.tool_id) else {
+                continue;
+            };
+            if let Some((pc, px)) = prev {
+                if *c < pc {
+                    r.violation(
+                        "C11/side_effects_order_differs_from_mutation_order",
+                        &format!(
+                            "thread lists the side effects of '{}' before those of '{}' although '{}' ran first (ws.exec.begin clocks {} vs {})",
+                            px.tool_name, x.tool_name, x.tool_name, pc, c
+                        ),
+                        witness(json!({"first_frame": {"tool": px.tool_name, "run": px.run, "begin_clock": pc},
+                                       "second_frame": {"tool": x.tool_name, "run": x.run, "begin_clock": c}})),
+                    );
+                }
+            }
+            r.count("side_effects_frames_order_checked", 1);
+            prev = Some((*c, x));
+        }
+    }
+    if unmapped {
+        r.count("cases_with_unmapped_begins", 1);
+    }
+    let _: BTreeMap<u8, u8> = BTreeMap::new();
 }
